@@ -246,8 +246,32 @@ RAW_ATOMS = ["..", ".", "", "%2e%2e", "%2E%2E", "%2e", "..%2f", "%2f", "%5c", "\
 
 
 def rand_raw(rng):
-    n = rng.choice([1, 1, 2, 2, 3, 3, 4, 5])
-    return "/".join(rng.choice(RAW_ATOMS) for _ in range(n))
+    r = rng.random()
+    if r < 0.6:
+        n = rng.choice([1, 1, 2, 2, 3, 3, 4, 5])
+        return "/".join(rng.choice(RAW_ATOMS) for _ in range(n))
+    # a path to a real file (inside, or a sentinel outside), decorated the way scanners do
+    if r < 0.8:
+        segs = rng.choice(list(INSIDE)).split("/")
+    else:
+        segs = [".."] * rng.randrange(0, 3) + rng.choice(["outside/secret.txt", "root-evil/secret.txt", "rootsecret.txt", "secret.txt", "root/index.html", "root/../outside/secret.txt"]).split("/")
+    out = []
+    for sg in segs:
+        d = rng.random()
+        if d < 0.15:
+            out.append(".")
+        elif d < 0.3:
+            out += [rng.choice(["a", "emptydir", "zzz", "index.html"]), ".."]
+        elif d < 0.35:
+            out.append("")
+        enc = rng.random()
+        if enc < 0.6:
+            out.append(quote(sg, safe=""))
+        elif enc < 0.8:
+            out.append("".join("%%%02x" % b for b in sg.encode()))
+        else:
+            out.append(sg)
+    return rng.choice(["/", "/", "/", "%2f", "%2F"]).join(out) if rng.random() < 0.2 else "/".join(out)
 
 
 def hostile_raws():
@@ -432,7 +456,7 @@ FN_ATOMS = ["a", "b", "Z", "0", ".", "..", "_", "-", " ", "/", "\\", "\t", "\n",
 
 
 def rand_filename(rng):
-    n = rng.choice([0, 1, 1, 2, 3, 4, 6, 9])
+    n = rng.choice([1, 2, 3, 4, 5, 6, 9, 12])
     out = []
     for _ in range(n):
         r = rng.random()
